@@ -78,7 +78,12 @@ class OrderedRingBuffer(Generic[FloatArray]):
 
         self._buffer: FloatArray = buffer
         self._sampling_period: timedelta = sampling_period
-        self._time_index_alignment: datetime = align_to
+        # Keep the alignment point in UTC: all timestamps in the buffer are derived from
+        # it, and arithmetic between datetimes sharing a time zone with daylight saving
+        # is done on the wall clock, not on the instants.
+        self._time_index_alignment: datetime = (
+            align_to.astimezone(timezone.utc) if align_to.tzinfo else align_to
+        )
 
         self._gaps: list[Gap] = []
         self._timestamp_newest: datetime = self._TIMESTAMP_MIN
